@@ -1066,8 +1066,36 @@ def process_fn(toks, it, fs: FnSpec, qual, ed: Edits, log, unit_in_trait_impl):
             continue
         occ = find_subseq(toks, lo, hi, anchor)
         if len(occ) < nth:
-            log["lost_hints"].append({"fn": qual, "anchor": anchor})
-            continue
+            # fallback: an anchor that is a whole `let [mut] x =` / `let x :` statement whose right-hand side changed is
+            # re-anchored at the statement that still binds the same variable (the hint is ghost code; logged)
+            at = [t_.text for t_ in tokenize(anchor) if t_.kind not in ("ws", "comment")]
+            re_occ = []
+            if len(at) >= 4 and at[0] == "let" and at[-1] == ";":
+                cut = None
+                for q_, tx_ in enumerate(at[:5]):
+                    if tx_ in ("=", ":"):
+                        cut = q_; break
+                if cut is not None and cut >= 2:
+                    pref = " ".join(at[:cut + 1])
+                    for (pa, pb) in find_subseq(toks, lo, hi, pref):
+                        depth_ = 0
+                        q_ = pb + 1
+                        end_ = None
+                        while q_ < hi:
+                            tq = toks[q_]
+                            if tq.kind == "punct" and tq.text in ("(", "[", "{"):
+                                q_ = match_close(toks, q_)
+                            elif tq.kind == "punct" and tq.text == ";":
+                                end_ = q_; break
+                            q_ += 1
+                        if end_ is not None:
+                            re_occ.append((pa, end_))
+            if len(re_occ) == 1 and nth == 1:
+                occ = re_occ
+                log.setdefault("reanchored_hints", []).append({"fn": qual, "anchor": anchor})
+            else:
+                log["lost_hints"].append({"fn": qual, "anchor": anchor})
+                continue
         a, b = occ[nth - 1]
         text = "\n".join(raw)
         chk = norm(text)
